@@ -18,5 +18,5 @@ HARNESSES = [
     H("c06_stacks::c06_fill_stack_uncapped", desc="fill_thread_stack, no cap: [page(SP), mapping end)"),
     H("c06_stacks::c06_fill_stack_capped_2k", desc="fill_thread_stack, 2 KiB cap: contains SP, starts no higher than SP"),
     H("c06_stacks::c06_fill_stack_unmapped", desc="SP in no plausible mapping: empty region", tier="thorough"),
-    H("c06_stacks::c04_tl_1thread_crash", desc="thread list, crash-context thread with a size limit... is never shortened (request reaches the mapping end)", timeout=2400, loops=TL, est_gb=14, mem_gb=30),
+    H("c06_stacks::c04_tl_1thread_crash", desc="thread list, crash-context thread with a size limit... is never shortened (request reaches the mapping end)", timeout=2400, loops=TL, est_gb=14, mem_gb=30, tier="thorough"),
 ]
